@@ -213,11 +213,19 @@ func HarnessC13QuotaLost(a []int) {
 	M, L, pauseMs, waitMs := a[0], a[1], a[2], a[3]
 	verifMutexFIFO()
 	router, in := newRouterEnv(4, time.Duration(pauseMs)*time.Millisecond)
+	// calibration: a busy indication announcing no wait at all on the idle client - whoever takes the
+	// send lock for it is the goroutine that serves indications
+	in <- &knxnet.RoutingBusy{WaitTime: 0, Control: 1}
+	verifSleep(int64(time.Second))
+	verifQuiesce()
+	verifAssert("C13.quotalost.calibration", verifLockLogField(router, "sendMu") == 1)
+	server := verifLockFieldThread(router, "sendMu", 0)
 	for i := 0; i < M; i++ {
 		verifAssert("C13.quotalost.send", router.Send(rmsg(i)) == nil)
 	}
 	verifSleep(int64(time.Second))
 	verifQuiesce()
+	first := verifLockLogField(router, "sendMu")
 	wait := time.Duration(waitMs) * time.Millisecond
 	in <- &knxnet.RoutingLost{Count: uint16(L)}
 	in <- &knxnet.RoutingBusy{WaitTime: wait, Control: 1}
@@ -233,13 +241,15 @@ func HarnessC13QuotaLost(a []int) {
 	if silent > int64(50*time.Millisecond) {
 		silent = int64(50 * time.Millisecond)
 	}
-	// acquisitions M.. : the first is the server goroutine's (serving the lost indication), its next
-	// one is the busy hand-over
-	n := verifLockLogField(router, "sendMu")
-	verifAssert("C13.quotalost.lock_log", n > M)
-	server := verifLockFieldThread(router, "sendMu", M)
+	for w := 0; w < verifNetWrites(); w++ {
+		if verifNetWriteThread(w) == server {
+			verifUnsupported("the goroutine that serves indications also transmits: the busy hand-over cannot be told apart")
+		}
+	}
+	// the busy indication was the last one handed in: the hand-over is the last acquisition of the
+	// send lock by the serving goroutine
 	seen := false
-	for i := M + 1; i < n; i++ {
+	for i := verifLockLogField(router, "sendMu") - 1; i >= first; i-- {
 		if verifLockFieldThread(router, "sendMu", i) != server {
 			continue
 		}
